@@ -19,23 +19,30 @@ from .. import common as C
 from .. import e2e
 
 MANIFEST = dict(
-    text="Lean 4 theorems over (1) an executable tree model of mod_webdav's PUT/DELETE/MKCOL/COPY/MOVE "
-         "(Overwrite, Depth, Destination parsing, If-Match/If-None-Match/If-Unmodified-Since) proved against an "
-         "RFC 4918 reference semantics (error ⇒ tree unchanged, success ⇒ reference effect, only the source "
-         "and destination subtrees change, well-formedness preserved) and (2) the PUT system-call protocol "
-         "(O_TMPFILE/staged name → write* → linkat → renameat2/rename; zero-length and Content-Range variants) "
-         "as an acceptor over arbitrary schedules of write sizes, failures, aborts and crash points (target "
-         "always complete-old or complete-new, no staged name after a completed or aborted upload); models "
-         "tied to the code by end-to-end runs of the real sanitized server: tree snapshots after every "
-         "request of generated method sequences, strace trace validation of PUT, injected syscall failures "
-         "and SIGKILL at every system call of a PUT, client aborts and a concurrent GET sampler",
-    note="trusted: Lean kernel (+propext, Quot.sound, Classical.choice), hand-written models validated by "
-         "the e2e correspondence, Linux file-system semantics (rename/linkat/O_TMPFILE atomicity), strace "
-         "fault injection, Python reference oracle; WebDAV locks/properties are compiled out "
-         "(WITH_WEBDAV_PROPS/LOCKS off); merging COPY/MOVE into an existing non-empty collection is "
-         "documented non-conformant behaviour of lighttpd and is modelled as implemented, outside the "
-         "reference theorem",
-    tech="Lean 4 proof over hand-written model + end-to-end differential correspondence and trace validation "
+    text="PARTIAL proof. Proved in Lean 4 over hand-written executable models: (1) tree model of mod_webdav's "
+         "PUT/DELETE/MKCOL/COPY/MOVE (Overwrite, Depth, Destination parsing, abstracted conditional headers): for every "
+         "well-formed tree and every request the reference covers (not lighttpd's documented merge into an existing "
+         "non-empty collection, not file-into-collection) success is answered exactly when the RFC 4918 "
+         "preconditions hold (independent spec rfcPre), success has exactly the RFC effect, everything else "
+         "(incl. 207) leaves the tree unchanged, sequences equal the reference run decided by the reference itself, "
+         "only source/destination subtrees change, accepted Destinations are canonical paths below the document root; "
+         "(2) PUT as a system-call automaton read both as acceptor and as code-shaped generator: under every schedule of "
+         "failed calls, write sizes and client aborts every issued call is accepted, the request terminates, the target "
+         "is complete-old or complete-new at every instant (crash = prefix), status class says which, no staged name "
+         "remains. Tested only (end-to-end, real sanitized server): that the C code equals these models (status + tree "
+         "snapshot after every request of generated sequences; strace trace validation of PUT; one injected errno or "
+         "SIGKILL at every traced system call incl. close(); client aborts; concurrent and stalled GETs), conditional "
+         "header evaluation against real ETags/dates, stat-cache freshness of reads, temp files in the upload dir",
+    note="partial: tree-level model is fault-free (fault schedules exist for single PUTs only); merge / file-into-"
+         "collection / Depth:0-onto-existing are modelled as implemented, outside the reference theorems (oracle keeps "
+         "conservation invariants); confinement is proved w.r.t. the document root — the Destination is NOT held to the "
+         "configuration (webdav.activate / is-readonly) of its own URL (upstream design, c18_confined_scope_partial + "
+         "witness, dav-scope stream); only webdav.opts partial-put-copy-modify is covered for Content-Range PUT (default "
+         "config answers 400; deprecated in-place mode is non-atomic by design); locks/properties compiled out; no "
+         "symlinks, EXDEV, PATH_MAX, power-loss durability. trusted: Lean kernel (+propext, Quot.sound, "
+         "Classical.choice), Linux rename/linkat/O_TMPFILE semantics, strace injection, the Python strace abstraction "
+         "and RFC oracle",
+    tech="Lean 4 proof over hand-written models + end-to-end differential correspondence and trace validation "
          "(real server, strace fault/kill injection)",
     ref="6/C18")
 
@@ -187,6 +194,18 @@ def wire(req, host, etag):
     return b"\r\n".join(h) + b"\r\n\r\n" + req.body
 
 
+_CL = re.compile(rb"\r\ncontent-length: *([0-9]+)\r\n", re.I)
+
+
+def _complete(buf):
+    """a final response with Content-Length has been received completely"""
+    i = buf.find(b"\r\n\r\n")
+    if i < 0 or buf[9:10] == b"1":
+        return False
+    m = _CL.search(buf[:i + 2])
+    return bool(m) and len(buf) >= i + 4 + int(m.group(1)) and b"transfer-encoding" not in buf[:i].lower()
+
+
 def http(port, data, timeout=10.0):
     """one request on one connection; returns (status, headers, body) or raises RespParseError"""
     try:
@@ -210,6 +229,8 @@ def http(port, data, timeout=10.0):
             if not d:
                 break
             buf += d
+            if _complete(buf):
+                break
     finally:
         s.close()
     rs = [r for r in e2e.parse_responses(buf, head_for=[data.startswith(b"HEAD ")], closed=True)
@@ -477,15 +498,18 @@ def spell_dest(rng, segs, slash):
         return path, intent
     if k < 0.72:
         return b"http://" + AUTH + path + b"?x=/../y", intent
-    if k < 0.77 and segs:
+    if k < 0.74 and segs:
         i = rng.randrange(1, len(path))
         return b"http://" + AUTH + path[:i] + b"%%%02x" % path[i] + path[i + 1:], intent
+    if k < 0.77 and segs:             # every character (also '/' after the first) independently
+        enc = path[:1] + b"".join((b"%%%02X" % ch) if rng.random() < 0.5 else bytes([ch]) for ch in path[1:])
+        return b"http://" + AUTH + enc, intent
     if k < 0.82:
         i = rng.choice([j for j, ch in enumerate(path) if ch == 0x2f])
-        ins = rng.choice([b"/.", b"/c/..", b"/", b"/./."])
+        ins = rng.choice([b"/.", b"/c/..", b"/", b"/./.", b"/c/%2e%2e", b"/c/.%2E", b"/%2e", b"/b/c/%2E%2e/%2e."])
         return b"http://" + AUTH + path[:i] + ins + path[i:], intent
     if k < 0.84:
-        return b"http://" + AUTH + b"/.." + path, intent
+        return b"http://" + AUTH + rng.choice([b"/..", b"/%2e%2e", b"/%2E%2E/..", b"/.%2e/%2e%2e"]) + path, intent
     if k < 0.87:
         return b"http://user@" + AUTH + path, intent
     if k < 0.90:
@@ -952,10 +976,9 @@ def abstract(calls, target, kind):
                 elif ok and "O_WRONLY" in args:
                     B = ret
             elif mkst.match(pth):
+                ev.append("mkostemp" if ok else "mkostemp!")
                 if ok:
                     M, A = pth, ret
-                else:
-                    ev.append("tmpfile!")
         elif name in ("write", "pwrite64", "pwritev", "pwritev2", "writev"):
             if fd0 is not None and fd0 in (A, B):
                 if ok:
@@ -1000,8 +1023,7 @@ def abstract(calls, target, kind):
             if paths and staged.match(paths[-1]):
                 ev.append("unlinkTmp")
             elif paths and M is not None and paths[-1] == M:
-                if ok:
-                    ev.append("tmpfile")
+                ev.append("unlinkNamed")
                 M = None
             elif paths and paths[-1] == target:
                 ev.append("other")
@@ -1009,11 +1031,11 @@ def abstract(calls, target, kind):
             if fd0 is None:
                 continue
             if fd0 == A:
-                ev.append("close"); A = None
+                ev.append("close" if ok else "close!"); A = None
             elif fd0 == X:
-                ev.append("close"); X = None
+                ev.append("close" if ok else "close!"); X = None
             elif fd0 == B:
-                ev.append("closeTmp"); B = None
+                ev.append("closeTmp" if ok else "closeTmp!"); B = None
             elif fd0 == I:
                 I = None
             elif fd0 == J:
@@ -1258,7 +1280,7 @@ def stream_put_trace(ctx, bd):
 
 ERR_FOR = {"openat": "ENOSPC", "write": "ENOSPC", "pwritev": "ENOSPC", "pwrite64": "ENOSPC", "linkat": "EPERM",
            "renameat2": "EINVAL", "rename": "EACCES", "renameat": "EACCES", "copy_file_range": "ENOSPC",
-           "sendfile": "EIO", "lseek": "EINVAL"}
+           "sendfile": "EIO", "lseek": "EINVAL", "close": "EIO"}
 KILL_AT = ("read", "openat", "write", "pwritev", "linkat", "renameat2", "rename", "renameat", "newfstatat",
            "close", "copy_file_range", "sendfile", "lseek", "unlink", "writev", "fcntl", "ioctl")
 
@@ -1599,6 +1621,216 @@ def stream_sampler(ctx, bd):
                         "wall_s": round(time.time() - t0, 2)})
 
 
+def big_version(k, n=16 << 20):
+    return (hashlib.sha256(b"version %d" % k).digest() * (n // 32 + 1))[:n]
+
+
+class SlowReader(threading.Thread):
+    """GET with a tiny receive window: reads 64 kB, stalls until released, then reads the rest"""
+
+    def __init__(self, port, host, path):
+        super().__init__()
+        self.port, self.host, self.path = port, host, path
+        self.started_reading = threading.Event()
+        self.release = threading.Event()
+        self.result = None
+
+    def run(self):
+        try:
+            s = socket.socket()
+            s.setsockopt(socket.SOL_SOCKET, socket.SO_RCVBUF, 8192)
+            s.settimeout(20)
+            s.connect(("127.0.0.1", self.port))
+            s.sendall(b"GET " + self.path + b" HTTP/1.1\r\nHost: " + self.host + b"\r\nConnection: close\r\n\r\n")
+            buf = b""
+            while len(buf) < 65536:
+                d = s.recv(16384)
+                if not d:
+                    break
+                buf += d
+            self.started_reading.set()
+            self.release.wait(30)
+            while True:
+                try:
+                    d = s.recv(1 << 20)
+                except OSError:
+                    break
+                if not d:
+                    break
+                buf += d
+            s.close()
+            try:
+                rs = e2e.parse_responses(buf, closed=True)
+                self.result = (rs[0]["status"], rs[0]["body"]) if rs else (None, b"")
+            except e2e.RespParseError as ex:
+                self.result = ("malformed", str(ex))
+        except OSError as ex:
+            self.result = ("error", str(ex))
+        finally:
+            self.started_reading.set()
+
+
+def stream_stalled(ctx, bd):
+    """a download that is still in progress (slow client) while PUTs replace the resource and other
+    requests open files: it must deliver one complete version, never a mixture or a cut-off body"""
+    t0 = time.time()
+    findings = []
+    srv = start_server(bd).start()
+    host = "st.test"
+    docroot = os.path.join(srv.root, "v", host)
+    os.makedirs(docroot)
+    rounds = 2 if ctx.quick else 6
+    versions = [big_version(0)]
+    with open(os.path.join(docroot, "big"), "wb") as f:
+        f.write(versions[0])
+    with open(os.path.join(docroot, "other"), "wb") as f:
+        f.write(b"other")
+    nread = 0
+    try:
+        for k in range(1, rounds + 1):
+            readers = [SlowReader(srv.port, host.encode(), b"/big") for _ in range(2)]
+            for rd in readers:
+                rd.start()
+            for rd in readers:
+                rd.started_reading.wait(15)
+            kind = "full" if k % 2 else "part:4096"
+            case = PutCase(kind, versions[-1], big_version(k) if kind == "full" else big_version(k, 1 << 20),
+                           name="big")
+            try:
+                st, _, _ = http(srv.port, wire(case.req(), host.encode(), None), timeout=60)
+            except e2e.RespParseError as ex:
+                st = str(ex)
+            versions.append(case.new())
+            quick = []
+            for pth in (b"big", b"other", b"big", b"other", b"big"):     # opens that may reuse a closed descriptor
+                try:
+                    quick.append(http(srv.port, wire(Req("GET", [pth], False), host.encode(), None), timeout=60))
+                except e2e.RespParseError as ex:
+                    quick.append(("malformed", [], str(ex).encode()))
+            for rd in readers:
+                rd.release.set()
+            for rd in readers:
+                rd.join(60)
+            ctx.evaluations += len(readers) + len(quick)
+            ctx.keys["stalled:put:%s:%s" % (kind.split(":")[0], st)] += 1
+            allowed = {hashlib.sha256(v).digest(): n for n, v in enumerate(versions)}
+            for rd in readers:
+                nread += 1
+                r0 = rd.result or ("no result", b"")
+                okv = r0[0] == 200 and hashlib.sha256(r0[1]).digest() in allowed
+                ctx.keys["stalled:get:%s" % ("complete-version" if okv else r0[0])] += 1
+                if not okv:
+                    desc = ("%d bytes that are no complete version (first difference from the version being "
+                            "downloaded at %s)" % (len(r0[1]), first_diff(r0[1], versions[-2]))) \
+                        if r0[0] == 200 else "%s %s" % (r0[0], str(r0[1])[:120])
+                    findings.append(dict(kind="oracle", sig="concurrent-read:stalled", step=k, obs="", model="",
+                                         input="stalled-download round=%d put=%s" % (k, kind),
+                                         what="a GET stalled by a slow client while PUT (%s, answered %s) replaced "
+                                         "the resource delivered %s" % (kind, st, desc)))
+            for q in quick:
+                if q[0] == 200 and len(q[2]) > 100 and q[2] != versions[-1]:
+                    findings.append(dict(kind="oracle", sig="concurrent-read:after-put", step=k, obs="", model="",
+                                         input="stalled-download round=%d" % k,
+                                         what="GET right after the PUT returned %d bytes that are not the new "
+                                         "version" % len(q[2])))
+                elif q[0] == "malformed":
+                    findings.append(dict(kind="oracle", sig="concurrent-read:after-put", step=k, obs="", model="",
+                                         input="stalled-download round=%d" % k,
+                                         what="GET right after the PUT: %s" % q[2][:160]))
+        rep = srv.sanitizer_report()
+        if rep or not srv.alive():
+            findings.append(dict(kind="oracle", sig="server-crash", step=0, obs="", model="", input="stalled",
+                                 what="server crashed during stalled downloads: " + (rep or srv.logs()[-1500:])[:1800]))
+    finally:
+        srv.stop()
+    report_findings(ctx, "put-stalled", findings, lambda f: f["input"])
+    ctx.streams.append({"name": "put-stalled", "cases": nread, "disagreements": 0, "oracle_hits": len(findings),
+                        "wall_s": round(time.time() - t0, 2)})
+
+
+SCOPE_CONF = CONF.replace('webdav.activate = "enable"', 'webdav.activate = "disable"') + """
+$HTTP["url"] =~ "^/dav($|/)" {
+  webdav.activate = "enable"
+  webdav.is-readonly = "disable"
+}
+$HTTP["url"] =~ "^/dav/ro($|/)" {
+  webdav.is-readonly = "enable"
+}
+"""
+SCOPE_SIG = "destination-config-not-rechecked"
+
+
+def stream_scope(ctx, bd):
+    """WebDAV enabled for /dav/ only (and read-only below /dav/ro/): requests addressed outside are not
+    served by mod_webdav; is the Destination of a COPY/MOVE held to the same configuration?"""
+    t0 = time.time()
+    srv = e2e.Server(bd, SCOPE_CONF, modules=MODS)
+    os.makedirs(os.path.join(srv.root, "v", "default.test"), exist_ok=True)
+    host = "sc.test"
+    docroot = os.path.join(srv.root, "v", host)
+    for d in ("dav", "dav/ro", "other"):
+        os.makedirs(os.path.join(docroot, d))
+    for pth, c in (("dav/a", b"A"), ("plain", b"P"), ("other/keep", b"K"), ("dav/ro/r", b"R")):
+        with open(os.path.join(docroot, pth), "wb") as f:
+            f.write(c)
+    findings, devs = [], []
+
+    def rq(m, path, dest=None, body=None):
+        r = Req(m, [x.encode() for x in path.strip("/").split("/")], path.endswith("/"),
+                dst_raw=None if dest is None else b"http://" + AUTH + dest.encode(), body=body or b"")
+        before = snapshot(docroot)
+        try:
+            st, _, _ = http(srv.port, wire(r, host.encode(), None))
+        except e2e.RespParseError as ex:
+            st = -1
+        after = snapshot(docroot)
+        changed = sorted(b"/".join(k).decode() for k in set(before) | set(after) if before.get(k, 0) != after.get(k, 0))
+        ctx.evaluations += 1
+        ctx.keys["scope:%s:%s:%s" % (m, "dest" if dest else "direct", st)] += 1
+        return st, changed
+    with srv:
+        # requests addressed outside the enabled space / into the read-only space must not change anything
+        for m, path, body in (("PUT", "/other/x", b"x"), ("PUT", "/plain", b"x"), ("DELETE", "/other/keep", None),
+                              ("MKCOL", "/other/n", None), ("PUT", "/dav/ro/x", b"x"), ("DELETE", "/dav/ro/r", None),
+                              ("MKCOL", "/dav/ro/n", None)):
+            st, changed = rq(m, path, body=body)
+            if changed or 200 <= st < 300:
+                findings.append(dict(kind="oracle", sig="scope-direct", step=0, obs="", model="", input="scope",
+                                     what="%s %s outside the writable WebDAV space answered %d, changed %r" %
+                                     (m, path, st, changed)))
+        st, changed = rq("MOVE", "/other/keep", "/dav/k")
+        if changed or 200 <= st < 300:
+            findings.append(dict(kind="oracle", sig="scope-direct", step=0, obs="", model="", input="scope",
+                                 what="MOVE of a source outside the WebDAV space answered %d, changed %r" % (st, changed)))
+        # the Destination: the same configuration is not re-evaluated for it (documented upstream)
+        for m, path, dest in (("COPY", "/dav/a", "/other/b"), ("COPY", "/dav/a", "/plain"),
+                              ("COPY", "/dav/a", "/dav/ro/b"), ("MOVE", "/dav/a", "/other/moved")):
+            st, changed = rq(m, path, dest)
+            outside = [c for c in changed if not c.startswith("dav/") or c.startswith("dav/ro/")]
+            if outside:
+                devs.append("%s %s Destination: %s answered %d and changed %s" % (m, path, dest, st, ", ".join(outside)))
+        rep = srv.sanitizer_report()
+        if rep:
+            findings.append(dict(kind="oracle", sig="server-crash", step=0, obs="", model="", input="scope",
+                                 what="sanitizer report: " + rep[:1500]))
+    if devs:
+        sig = "oracle:dav-scope:" + SCOPE_SIG
+        listed = any(k.get("property") == ctx.pid and k.get("status") == "known" and re.search(k["match"], sig)
+                     for k in ctx.known)
+        what = ("Destination of COPY/MOVE is not held to the configuration of the destination URL (webdav.activate / "
+                "webdav.is-readonly are evaluated for the request URL only): " + "; ".join(devs))
+        if listed:
+            ctx.violation(sig, what, {"property": ctx.pid, "kind": "property-oracle", "correspondence": "dav-scope",
+                                      "input": "scope", "oracle_verdict": what}, found=True)
+        else:
+            C.log("  UNLISTED DEVIATION (reported as note; add a known_findings entry matching %r): %s" % (sig, what))
+            ctx.notes.append("UNLISTED DEVIATION %s: %s" % (sig, what))
+        ctx.keys["scope:destination-not-rechecked"] += len(devs)
+    report_findings(ctx, "dav-scope", findings, lambda f: f["input"])
+    ctx.streams.append({"name": "dav-scope", "cases": 12, "disagreements": 0, "oracle_hits": len(findings),
+                        "deviations": len(devs), "wall_s": round(time.time() - t0, 2)})
+
+
 def run(ctx):
     bd, err = e2e.build_server()
     if bd is None:
@@ -1609,6 +1841,8 @@ def run(ctx):
     stream_put_fault(ctx, bd, startup_count, calib)
     stream_put_abort(ctx, bd)
     stream_sampler(ctx, bd)
+    stream_stalled(ctx, bd)
+    stream_scope(ctx, bd)
     ctx.rule = ("distinct (stream, method, status, reference verdict) / (PUT kind, fault, outcome) tuples "
                 "observed on the real server")
     ctx.assumptions += [
